@@ -803,7 +803,18 @@ func (r *reader) read(src []byte) {
 	}
 	r.pos++
 	if r.more {
-		r.carry = append(r.carry, src[r.tokenStart:r.pos]...)
+		// Save what has been read of a pending token or string. The next
+		// block starts over with a tokenStart of zero.
+		switch r.mode {
+		case tokenMode, charMode, intMode, bitVectorMode:
+			if r.tokenStart < r.pos {
+				r.carry = append(r.carry, src[r.tokenStart:r.pos]...)
+			}
+		case stringMode, symbolMode:
+			if len(r.buf) == 0 && r.tokenStart < r.pos {
+				r.buf = append(r.buf, src[r.tokenStart:r.pos]...)
+			}
+		}
 	} else {
 		switch r.mode {
 		case tokenMode:
@@ -941,16 +952,13 @@ func (r *reader) closeList() {
 // Converts tokens to the correct type and then pushes that value onto the
 // stack.
 func (r *reader) pushToken(src []byte) {
-	size := r.pos - r.tokenStart
-	var (
-		obj   Object
-		token []byte
-	)
-	if size == 1 && (src[r.tokenStart] == 't' || src[r.tokenStart] == 'T') {
+	var obj Object
+	token := r.makeToken(src)
+	size := len(token)
+	if size == 1 && (token[0] == 't' || token[0] == 'T') {
 		obj = True
 		goto Push
 	}
-	token = r.makeToken(src)
 	if size == 3 && bytes.EqualFold([]byte("nil"), token) {
 		obj = nil
 		goto Push
@@ -1136,23 +1144,24 @@ const hexByteValues = "" +
 
 func (r *reader) pushChar(src []byte) {
 	var c Character
-	cnt := r.pos - r.tokenStart
+	token := r.makeToken(src)
+	cnt := len(token)
 	switch cnt {
 	case 0:
 		r.raise(`'#\' is not a valid character`)
 	case 1:
-		c = Character(src[r.tokenStart])
+		c = Character(token[0])
 	default:
 		var ok bool
-		if c, ok = runeMap[string(bytes.ToLower(src[r.tokenStart:r.pos]))]; ok {
+		if c, ok = runeMap[string(bytes.ToLower(token))]; ok {
 			break
 		}
-		if src[r.tokenStart] == 'u' || src[r.tokenStart] == 'U' {
+		if token[0] == 'u' || token[0] == 'U' {
 			if 7 < cnt {
 				break
 			}
 			var rn rune
-			for _, b := range src[r.tokenStart+1 : r.pos] {
+			for _, b := range token[1:] {
 				rn = rn<<4 + rune(hexByteValues[b])
 			}
 			if rn <= unicode.MaxRune {
@@ -1160,12 +1169,12 @@ func (r *reader) pushChar(src []byte) {
 			}
 			break
 		}
-		if rn, n := utf8.DecodeRune(src[r.tokenStart:r.pos]); 0 < n {
+		if rn, n := utf8.DecodeRune(token); 0 < n {
 			c = Character(rn)
 		}
 	}
 	if c == 0 {
-		r.raise(`'#\%s' is not a valid character`, src[r.tokenStart:r.pos])
+		r.raise(`'#\%s' is not a valid character`, token)
 	}
 	if 0 < len(r.stack) {
 		r.stack = append(r.stack, c)
